@@ -66,6 +66,25 @@ impl Default for ProcfsResolver {
     }
 }
 
+/// Reject open flags that make no sense for procfs lookups.
+pub(crate) fn check_procfs_oflags(oflags: OpenFlags) -> Result<(), Error> {
+    // These flags don't make sense for procfs and will just result in
+    // confusing errors during lookup. O_TMPFILE contains multiple flags
+    // (including O_DIRECTORY!) so we have to check it separately.
+    let invalid_flags = OpenFlags::O_CREAT | OpenFlags::O_EXCL;
+    if !oflags.intersection(invalid_flags).is_empty() || oflags.contains(OpenFlags::O_TMPFILE) {
+        Err(ErrorImpl::InvalidArgument {
+            name: "flags".into(),
+            description: format!(
+                "invalid flags {:?} specified",
+                oflags.intersection(invalid_flags)
+            )
+            .into(),
+        })?
+    }
+    Ok(())
+}
+
 impl ProcfsResolver {
     pub(crate) fn resolve<Fd: AsFd, P: AsRef<Path>>(
         &self,
@@ -74,20 +93,7 @@ impl ProcfsResolver {
         oflags: OpenFlags,
         rflags: ResolverFlags,
     ) -> Result<OwnedFd, Error> {
-        // These flags don't make sense for procfs and will just result in
-        // confusing errors during lookup. O_TMPFILE contains multiple flags
-        // (including O_DIRECTORY!) so we have to check it separately.
-        let invalid_flags = OpenFlags::O_CREAT | OpenFlags::O_EXCL;
-        if !oflags.intersection(invalid_flags).is_empty() || oflags.contains(OpenFlags::O_TMPFILE) {
-            Err(ErrorImpl::InvalidArgument {
-                name: "flags".into(),
-                description: format!(
-                    "invalid flags {:?} specified",
-                    oflags.intersection(invalid_flags)
-                )
-                .into(),
-            })?
-        }
+        check_procfs_oflags(oflags)?;
 
         match *self {
             Self::Openat2 => openat2_resolve(root, path, oflags, rflags),
